@@ -29,4 +29,15 @@ PROPS = {
     },
 }
 
+PROPS["C19"] = {
+    "level": "exploration",
+    "technique": "property-based testing (rapid): encode/decode round trip compared by canonical dump; decoder totality on mutated encodings and raw bytes with an EOF-counting reader in an isolated worker",
+    "level_text": "Round trip over grammar-derived statements (one by one and as lists) with a structural inverse oracle, plus totality of Decode/ReadLinterRequest on byte-level mutations of valid encodings. Exploration: covers generated shapes only.",
+    "campaigns": [rapid("rapid", 60000, 1500000)],
+    "assumptions": [
+        "comments, positions, Explicit, LongString/Delimiter, HasParenthesis, HasComma and the else-if keyword spelling are presentational (not compared)",
+        "a decoder that provokes more than 1000 EOF reads from its input is looping",
+    ],
+}
+
 NOT_APPLICABLE = {}
